@@ -68,12 +68,17 @@ def declare(rep):
     rep.rule("C04.out", "result component q is component q of the queried value", floor=6)
 
 
-def run(rep, tier):
+def harnesses(tier):
     if tier == "quick":
         combos = [(N, (N % 3) + 1, F, I) for N in (1, 2, 3) for F in ("float", "double") for I in ("size_t", "int")] + [(4, 2, "double", "unsigned")]
     else:
         combos = [(N, M, F, I) for N in (1, 2, 3, 4) for M in (1, 2, 3, 4) for F in ("float", "double") for I in ("size_t", "unsigned", "int")]
     hs = [make(N, M, F, I) for (N, M, F, I) in combos]
+    return hs
+
+
+def run(rep, tier):
+    hs = harnesses(tier)
     harness.build(hs, "c04")
     for h in hs:
         N, M, F, I = h.meta["N"], h.meta["M"], h.meta["F"], h.meta["I"]
